@@ -109,6 +109,7 @@ impl Directive {
             segments,
             macros,
             messages,
+            depth,
         } = context;
 
         if let DirectiveOps::OpList(values) = opts {
@@ -284,6 +285,7 @@ impl Directive {
                             segments: segments.clone(),
                             macros: macros.clone(),
                             messages: messages.clone(),
+                            depth: depth + 1,
                         };
                         parse_file_internal(&context)?;
                         include_paths
